@@ -108,7 +108,11 @@ func (g *c20gen) tag(used *[]int, typ string) string {
 		parts = []string{`yaml:"y"`, `json:"j,string"`}
 	}
 	body := strings.Join(parts, " ")
-	if rapid.IntRange(0, 4).Draw(g.t, "dq") == 0 {
+	if rapid.IntRange(0, 11).Draw(g.t, "backquote") == 0 {
+		// a value containing a backquote: such a tag can only be written (and re-written) as a double-quoted literal
+		body = strings.TrimSpace(body + " doc:\"a`b\"")
+	}
+	if strings.Contains(body, "`") || rapid.IntRange(0, 4).Draw(g.t, "dq") == 0 {
 		return strconv.Quote(body) // double-quoted form
 	}
 	return "`" + body + "`"
